@@ -11,6 +11,7 @@ EXTENDS PSMachine, Json, CSV
 CONSTANTS Tier,          \* "quick" | "thorough"
           Family,        \* "ctl" | "lookup" | "budget"
           MaxBudget,     \* budgets 1..MaxBudget are explored in the "budget" family
+          FeedLen,       \* tokens per fed program (family "feed", simulation)
           OutFile, BaseFile, StepBound
 
 \* ---- tokens are written as strings in the grammar and mapped to values here
@@ -73,7 +74,7 @@ VARIABLES s, stim, phase,
 vars == <<s, stim, phase, u>>
 
 Init == /\ phase = "pick1"
-        /\ stim = [outer |-> "none", pre |-> <<>>, mid |-> <<>>, post |-> <<>>, n |-> 0, cuts |-> {}]
+        /\ stim = [outer |-> "none", pre |-> <<>>, mid |-> <<>>, post |-> <<>>, n |-> 0, cuts |-> {}, prog |-> <<>>]
         /\ s = FreshState(<<>>, 0)
         /\ u = FreshState(<<>>, 0)
 
@@ -136,6 +137,40 @@ PickCalls ==
              /\ stim' = [stim EXCEPT !.outer = o, !.mid = c, !.pre = <<>>, !.post = <<>>, !.cuts = {a, b} \ {0}]
     /\ phase' = "start" /\ UNCHANGED <<s, u>>
 
+\* ---- fed programs (simulation): the environment hands over one token at a time and chooses
+\* it knowing the machine state, so that long programs stay inside the operators' domains:
+\* a push, or an operator that the specification says succeeds now; with a small probability
+\* any operator (the run then usually ends in an error).  One random successor per step.
+FeedLits == << IntN(0), IntN(1), IntN(2), IntN(3), IntN(-1), IntN(255), IntN(7), IntV(MaxInt64), IntV(MinInt64),
+               RealV([n |-> BI(1), e |-> -1]), RealV([n |-> BI(3), e |-> 0]),
+               NameV("a"), NameV("b"), NameV("x"), NameV("Font"), XNameV("true"), XNameV("false"),
+               StrLit(<<97, 98, 99>>), StrLit(<<>>), StrLit(<<120>>), XNameV("mark"), XNameV("["), XNameV("<<"),
+               XNameV("currentdict"), XNameV("userdict"), XNameV("systemdict"), XNameV("StandardEncoding"),
+               XNameV("a"), XNameV("x"), XNameV("count") >>
+FeedOps == <<"pop", "dup", "exch", "copy", "index", "roll", "]", ">>", "cleartomark", "abs", "add", "sub", "mul",
+             "and", "or", "not", "eq", "ne", "array", "string", "dict", "length", "get", "put", "getinterval",
+             "putinterval", "begin", "end", "def", "load", "where", "known", "maxlength", "type", "definefont",
+             "findfont", "cvx", "exec", "bind">>
+Succeeds(st, op) == LET r == DataOp(op, st.ost, st.heap, st.dst) IN r.ok
+EnabledOps(st) == {j \in 1..Len(FeedOps) : FeedOps[j] \in DataOps /\ Succeeds(st, FeedOps[j])}
+FeedStep ==
+    /\ Family = "feed" /\ phase = "pick1" /\ s.status = "running" /\ s.est = <<>> /\ s.feed = <<>>
+    /\ stim.n < FeedLen
+    /\ \E coin \in {RandomElement(1..20)}, li \in {RandomElement(1..Len(FeedLits))}, oi \in {RandomElement(1..Len(FeedOps))},
+          ei \in {RandomElement(0..999)} :
+          \* every random draw is bound exactly once (RandomElement is re-evaluated at each use)
+          LET en == EnabledOps(s)
+              pick == CHOOSE j \in en : Cardinality({i \in en : i < j}) = ei % Cardinality(en)
+              tok == IF coin <= 8 \/ (en = {} /\ coin < 20) THEN FeedLits[li]
+                     ELSE IF coin < 20 THEN XNameV(FeedOps[pick])
+                     ELSE XNameV(FeedOps[oi])
+          IN /\ s' = [s EXCEPT !.feed = <<tok>>]
+             /\ stim' = [stim EXCEPT !.n = @ + 1, !.prog = Append(@, tok)]
+    /\ UNCHANGED <<phase, u>>
+FeedRun == /\ Family = "feed" /\ phase = "pick1" /\ s.status = "running" /\ (s.est # <<>> \/ s.feed # <<>>)
+           /\ s' = IF s.nops > StepBound THEN Skip(s) ELSE Step(s)
+           /\ UNCHANGED <<stim, phase, u>>
+
 PickBudget ==
     /\ Family = "budget"
     /\ phase = "pick1"
@@ -154,12 +189,17 @@ Run == /\ phase = "run" /\ s.status = "running"
                ELSE IF Family = "calls" THEN u     \* the unsplit twin is run to its end when needed (RunToEnd)
                ELSE u
        /\ UNCHANGED <<stim, phase>>
-Next == PickCtl \/ PickLook \/ PickBudget \/ PickLimit \/ PickCalls \/ Start \/ Run
+Next == PickCtl \/ PickLook \/ PickBudget \/ PickLimit \/ PickCalls \/ Start \/ Run \/ FeedStep \/ FeedRun
 
-Vector == [prog |-> Feed0(stim), init |-> <<>>, maxops |-> s.maxops,
+Vector == [prog |-> IF Family = "feed" THEN stim.prog ELSE Feed0(stim), init |-> <<>>, maxops |-> s.maxops,
            status |-> s.status, errs |-> s.errs, ost |-> s.ost, dst |-> s.dst,
            heap |-> s.heap.c, nheap |-> s.heap.n, nops |-> s.nops, steps |-> s.nops]
-Emit == (phase = "run" /\ s.status \in {"done", "error"}) => CSVWrite("%1$s", <<ToJson(Vector)>>, OutFile)
+\* fed programs are emitted when they end: in an error, or idle with FeedLen tokens consumed
+FeedEnded == Family = "feed" /\ stim.n >= 1
+             /\ (s.status = "error" \/ (s.status = "running" /\ s.est = <<>> /\ s.feed = <<>> /\ stim.n = FeedLen))
+FeedVector == [Vector EXCEPT !.status = IF s.status = "running" THEN "done" ELSE s.status]
+Emit == /\ ((phase = "run" /\ s.status \in {"done", "error"}) => CSVWrite("%1$s", <<ToJson(Vector)>>, OutFile))
+        /\ (FeedEnded => CSVWrite("%1$s", <<ToJson(FeedVector)>>, OutFile))
 ASSUME JsonSerialize(BaseFile, [heap |-> FreshHeap, nfixed |-> NFixed])
 
 (***************************************************************************)
